@@ -150,6 +150,7 @@ def run(tier):
 
 def run_features(res, tier, features):
     cp, info = fam_reply.corpus(tier, features)
+    fam_basic.report_failed(res, cp, "reply")
     ids = c07.get_ids(cp, info)
     cx = fam_basic.CONTEXTS[1]
     cases, exp = [], []
@@ -228,5 +229,5 @@ def run_features(res, tier, features):
                 bad("data parameter is %s, expected %s" % (json.dumps(got), json.dumps(val)), "value")
     res.parts["cases_" + features] = len(cases)
     if features == "full":
-        res.sample({"reply": cases[9]["input"], "program": cases[9]["prog"], "observation": obs[9]})
+        res.sample(lambda: {"reply": cases[9]["input"], "program": cases[9]["prog"], "observation": obs[9]})
 
